@@ -55,6 +55,7 @@ def _desc_nodes(t, level, node, target):
     return set(ref_children_chain(t, level, node, target))
 
 
+BOUND4 = BOUND.replace('<= 5 leaves', '<= 4 leaves')     # proved functions: native cross-check only
 TREE_ENV = dict(REF_ENV, inv=_inv_native, desc_nodes=_desc_nodes, isinstance=isinstance, dict=dict,
                 any=any, all=all, range=range, zip=zip)
 
@@ -62,8 +63,8 @@ TREE_ENV = dict(REF_ENV, inv=_inv_native, desc_nodes=_desc_nodes, isinstance=isi
 # ---------------------------------------------------------------------------------------------
 # _drop_level / flatten  (C10 "preserve the leaf set and each leaf's ancestor", C17.a)
 # ---------------------------------------------------------------------------------------------
-def _enum_drop(size):
-    for t in enum_trees():
+def _enum_drop(size, max_leaves=5):
+    for t in enum_trees(max_leaves=max_leaves):
         obj = _mk(t)
         for lvl in list(t['hierarchy']) + ['not_a_level']:
             for allow in (False, True):
@@ -106,8 +107,12 @@ contract(
 )
 
 
+def _enum_drop4(size):
+    return _enum_drop(size, max_leaves=4)
+
+
 def _enum_self(size):
-    for t in enum_trees():
+    for t in enum_trees(max_leaves=4):
         yield dict(self=_mk(t))
 
 
@@ -115,7 +120,7 @@ contract(
     M + 'flatten',
     properties=['C10', 'C17'], self_type='TaxTree',
     native=dict(enumerate=_with_random(_enum_self, lambda rng, size: dict(self=_mk(gen_tree(rng, size + 2)))),
-                env=TREE_ENV, bound=BOUND),
+                env=TREE_ENV, bound=BOUND4),
     params=dict(self='TaxTree'),
     returns='TaxTree',
     requires=INV,
@@ -139,15 +144,15 @@ contract(
 # ---------------------------------------------------------------------------------------------
 contract(M + 'hierarchy', properties=['C10'], self_type='TaxTree', params=dict(self='TaxTree'),
          returns='List[Name]', ensures=[f"result == {HS}", "self._data == old(self._data)"],
-         native=dict(enumerate=_enum_self, call=lambda self: self.hierarchy, env=TREE_ENV, bound=BOUND))
+         native=dict(enumerate=_enum_self, call=lambda self: self.hierarchy, env=TREE_ENV, bound=BOUND4))
 
 contract(M + 'leaf_level', properties=['C10'], self_type='TaxTree', params=dict(self='TaxTree'),
          returns='Name', requires=[f"len({HS}) >= 1"], ensures=[f"result == {HS}[-1]"],
-         native=dict(enumerate=_enum_self, call=lambda self: self.leaf_level, env=TREE_ENV, bound=BOUND))
+         native=dict(enumerate=_enum_self, call=lambda self: self.leaf_level, env=TREE_ENV, bound=BOUND4))
 
 
 def _enum_node_of(size):
-    for t in enum_trees():
+    for t in enum_trees(max_leaves=4):
         obj = _mk(t)
         for lvl in t['hierarchy']:
             for n in list(t[lvl]) + ['nope']:
@@ -168,7 +173,7 @@ def _gen_node_of(rng, size):
 contract(
     M + 'children',
     properties=['C10', 'C17'], self_type='TaxTree',
-    native=dict(enumerate=_with_random(_enum_node_of, _gen_node_of), env=TREE_ENV, bound=BOUND),
+    native=dict(enumerate=_with_random(_enum_node_of, _gen_node_of), env=TREE_ENV, bound=BOUND4),
     params=dict(self='TaxTree', level='Name', node='Name'),
     returns='List[Name]',
     # typing restriction of the blob model: 'hierarchy' is not a level (natively
@@ -206,7 +211,7 @@ contract(
     native=dict(enumerate=_with_random(lambda size: (a for a in _enum_node_of(size)
                                                      if a['level'] in a['self']._data['hierarchy']
                                                      and a['node'] in a['self']._data[a['level']]),
-                                       _gen_node_of), env=TREE_ENV, bound=BOUND),
+                                       _gen_node_of), env=TREE_ENV, bound=BOUND4),
     params=dict(self='TaxTree', level='Name', node='Name'),
     returns='Dict[Name,Name]',
     locals=dict(hierarchy_idx='Opt[Int]', this='Dict[Name,Name]'),
@@ -251,7 +256,8 @@ contract(
     native=dict(gen=_gen_init, env=TREE_ENV),
     params=dict(self='TaxTree', data='Tree'),
     returns='None', mutates=['self'], returns_alias='self',    # alias: value of `TaxonomyTree(...)`
-    requires=["'hierarchy' not in data or 'hierarchy' not in data['hierarchy']"],
+    requires=["'hierarchy' not in data or 'hierarchy' not in data['hierarchy']",
+              "'hierarchy' not in data or len(data['hierarchy']) >= 1"],      # depth >= 1, as the validator
     # the stored blob is a copy of the argument and the class invariant holds (the two clauses of
     # wf_tree that validate_taxonomy_tree cannot establish - S-9, S-10 - are inherited from its
     # contract, where they are reported)
@@ -498,7 +504,7 @@ _DROP_COMMON = dict(
 
 contract(
     M + '_drop_level#guards', **_DROP_COMMON,
-    native=dict(enumerate=_enum_drop, env=TREE_ENV, bound=BOUND, max_enumerated=400000),
+    native=dict(enumerate=_enum_drop4, env=TREE_ENV, bound=BOUND4, max_enumerated=400000),
     requires=INV_TREE + [DROP_GUARD],
     raises={'RuntimeError': ('iff', DROP_GUARD)},
     ensures=["False"],
@@ -506,7 +512,7 @@ contract(
 
 contract(
     M + '_drop_level#top', **_DROP_COMMON,
-    native=dict(enumerate=_enum_drop, env=TREE_ENV, bound=BOUND, max_enumerated=400000),
+    native=dict(enumerate=_enum_drop4, env=TREE_ENV, bound=BOUND4, max_enumerated=400000),
     requires=INV_TREE + [f"len({HS}) >= 2", f"{L_} == {HS}[0]"],
     ensures=DROP_POST,
     loops={0: _DROP_LOOP0},
@@ -552,7 +558,7 @@ contract(
 
 contract(
     M + '_drop_level#leaf', **_DROP_COMMON,
-    native=dict(enumerate=_enum_drop, env=TREE_ENV, bound=BOUND, max_enumerated=400000),
+    native=dict(enumerate=_enum_drop4, env=TREE_ENV, bound=BOUND4, max_enumerated=400000),
     requires=INV_TREE + [f"len({HS}) >= 2", f"{L_} == {HS}[-1]", "allow_leaf"],
     ensures=DROP_POST + DROP_POST_ABOVE,
     loops=_drop_loops(),
